@@ -110,6 +110,7 @@ theorem outputPubkeyAndInternalKey_opsSub_ok (K : CurveOk p C) (H : TagHash) {se
     | error e => rw [ht] at hh; cases hh
     | ok qp => rw [ht] at hh; rw [tweakedPubkey_opsSub_ok K H ht]; exact hh
   unfold outputPubkeyAndInternalKey at hr ⊢
+  generalize truthyKey sec = sec at hr ⊢
   cases sec with
   | none =>
     cases tree with
@@ -143,17 +144,17 @@ theorem checkOutputPubkey_opsSub_ok (K : CurveOk p C) (H : TagHash) {q s c : Byt
   | ok m =>
     rw [hm] at hb
     simp only [bind, Except.bind, tapTweak_opsSub] at hb ⊢
-    cases ht : tapTweak (EC.ops C) H (List.take 32 (List.drop 1 c))
+    cases ht : tapTweak (EC.ops C) H (List.take (CONTROL_HEAD - 1) (List.drop 1 c))
         (foldPath H (leafHash H ((c.headD 0).toNat &&& LEAF_MASK) s) (List.drop CONTROL_HEAD c) m.toNat) with
     | error e => rw [ht] at hb; cases hb
     | ok t =>
       rw [ht] at hb
       simp only [] at hb ⊢
-      cases hx : (opsSub K).liftX ((ofBE (List.take 32 (List.drop 1 c)) : ℕ) : ℤ) with
+      cases hx : (opsSub K).liftX ((ofBE (List.take (CONTROL_HEAD - 1) (List.drop 1 c)) : ℕ) : ℤ) with
       | none => rw [hx] at hb; cases hb
       | some R =>
         rw [hx] at hb
-        have hr : (EC.ops C).liftX ((ofBE (List.take 32 (List.drop 1 c)) : ℕ) : ℤ) = some R.1 := opsSub_liftX K hx
+        have hr : (EC.ops C).liftX ((ofBE (List.take (CONTROL_HEAD - 1) (List.drop 1 c)) : ℕ) : ℤ) = some R.1 := opsSub_liftX K hx
         rw [hr]
         exact hb
 
